@@ -66,6 +66,34 @@ def run_translator(name: str) -> Obligation:
         return Obligation(f"translate:{name}:{where}", False, f"{type(e).__name__}: {e}")
 
 
+def gens_needed(mod) -> list[str]:
+    """translators to run for a property: those it declares (GEN) plus every translator one of whose outputs is imported,
+    directly or transitively, by the property's theorem file (so that no generated file a theorem depends on is stale)"""
+    need = list(getattr(mod, "GEN", []))
+    seen, todo, gens = set(), [mod.PROPS_FILE], set()
+    while todo:
+        f = todo.pop()
+        if f in seen:
+            continue
+        seen.add(f)
+        try:
+            text = open(os.path.join(coqrun.COQ, f)).read()
+        except FileNotFoundError:
+            continue
+        for m in re.finditer(r"From\s+TS\s+Require\s+(?:Import|Export)\s+(.*?)\.(?:\s|$)", text, re.S):
+            for name in m.group(1).split():
+                d, _, base = name.partition(".")
+                if d == "gen":
+                    gens.add(base)
+                elif d in ("model", "proofs", "props"):
+                    todo.append(f"{d}/{base}.v")
+    for t in translators():
+        outs = getattr(importlib.import_module(f"translator.{t}"), "OUTPUTS", [])
+        if t not in need and gens & set(outs):
+            need.append(t)
+    return need
+
+
 def setup() -> int:
     t0 = time.time()
     bad = scan_forbidden()
@@ -144,7 +172,7 @@ def decide(prop: str, tier: str, seed: int) -> int:
     axioms = {}
     with coqrun.locked():
         # 1. translate -------------------------------------------------------
-        for g in getattr(mod, "GEN", []):
+        for g in gens_needed(mod):
             obligs.append(run_translator(g))
         # 2. prove -----------------------------------------------------------
         ok, out, dt = coqrun.make([target])
